@@ -156,7 +156,7 @@ func (r *vRun) hostileJSONCases() {
 						if err == nil {
 							val = "VSome (" + r.s.tree(root, reflect.ValueOf(x).Elem()).String() + ")"
 						}
-						r.out.Case(true, vCaseTermJ(6, root.id, val, r.s.jvTerm(root, parsed)))
+						r.caseOut(true, vCaseTermJ(6, root.id, val, r.s.jvTerm(root, parsed)))
 						emitted++
 					}
 				}
@@ -259,14 +259,14 @@ func (r *vRun) hostilePBCases() {
 				asCase := f.ty == vtID || n%3 == 0
 				if err != nil {
 					if asCase {
-						r.out.Case(false, term0)
+						r.caseOut(false, term0)
 					}
 					continue
 				}
 				r.hist["hostile_accepted_"+tk.what]++
 				v := reflect.ValueOf(x).Elem()
 				if asCase {
-					r.out.Case(true, vCaseTerm(7, root.id, "VSome ("+r.s.tree(root, v).String()+")", b, 0))
+					r.caseOut(true, vCaseTerm(7, root.id, "VSome ("+r.s.tree(root, v).String()+")", b, 0))
 				}
 				pb := v.Addr().Interface().(vPB)
 				b1, e1 := vMarshal(pb)
